@@ -137,20 +137,21 @@ def install_events():
 
     def th_pre(ev, simulator, market):
         s = simulator.current_session
-        return dict(flag=None if s is None else s.with_order_execution, running=market._is_running, halted=getattr(ev, "_verif_halted", {}).get(id(market), False),
+        mine = s is not None and getattr(ev, "halted_session", None) is s
+        return dict(flag=None if s is None else s.with_order_execution, running=market._is_running, mine=mine,
                     t=market.get_time(), started=ev.halting_time_started, length=ev.halting_time_length, target=market in ev.target_markets.values())
 
     def th_post(ev, c, res, simulator, market):
         s = simulator.current_session
         cfg = getattr(s, "_verif_configured_exec", None)
-        if s is not None and cfg is False and s.with_order_execution:
+        if s is not None and cfg is False and (s.with_order_execution or market._is_running):
             raise ContractViolation("TradingHaltRule.hooked_before_step_for_market", "a session configured without order execution never gets execution switched on", dict(time=c["t"]))
-        if not c["halted"] and (market._is_running != c["running"] or (s is not None and s.with_order_execution != c["flag"])):
-            raise ContractViolation("TradingHaltRule.hooked_before_step_for_market", "the rule resumes only what it halted itself", dict(time=c["t"], running=(c["running"], market._is_running)))
-        if c["halted"] and c["target"] and c["t"] > c["started"] + c["length"]:
-            if not market._is_running:
-                raise ContractViolation("TradingHaltRule.hooked_before_step_for_market", "a halted target resumes at the step after the halt length", dict(time=c["t"]))
-            ev._verif_halted[id(market)] = False
+        due = c["target"] and c["t"] > c["started"] + c["length"]
+        if not (c["mine"] and due) and (market._is_running != c["running"] or (s is not None and s.with_order_execution != c["flag"])):
+            raise ContractViolation("TradingHaltRule.hooked_before_step_for_market", "the rule switches execution on only in a session it halted itself, and only when the halt length has passed",
+                                    dict(time=c["t"], running=(c["running"], market._is_running)))
+        if c["mine"] and due and not (market._is_running and s.with_order_execution):
+            raise ContractViolation("TradingHaltRule.hooked_before_step_for_market", "a halted target resumes at the step after the halt length", dict(time=c["t"]))
     wrap(TradingHaltRule, "hooked_before_step_for_market", th_pre, th_post)
 
     def ae_pre(ev, simulator, execution_log):
@@ -163,9 +164,6 @@ def install_events():
         if should:
             if m._is_running or ev.activation_count != c["count"] + 1 or ev.halting_time_started != c["t"]:
                 raise ContractViolation("TradingHaltRule.hooked_after_execution", "deviation >= rate x (halts + 1) on a running target: the market stops at once", dict(t=c["t"]))
-            if not hasattr(ev, "_verif_halted"):
-                ev._verif_halted = {}
-            ev._verif_halted[id(m)] = True
         else:
             if m._is_running != c["running"] or ev.activation_count != c["count"]:
                 raise ContractViolation("TradingHaltRule.hooked_after_execution", "no halt below the line / on non-targets / on stopped markets", dict(t=c["t"], target=c["target"]))
